@@ -7,9 +7,13 @@ CONSTANTS
   Pausables = {}
   Flyers = {}
   AsyncDevs = {}
+  Suspenders <- XSus
+  SigOf <- SigOfDef
+  SusFuts <- SusFutsDef
+  MaxSusOps = 2
   ReadVal <- ReadValDef
   DataKeys <- DataKeysDef
-  FutNames = {"f1"}
+  FutNames = {"f1", "s1a", "s1b"}
   RecordIntr = TRUE
   StreamOrder <- StreamOrderDef
   DevOrder <- DevOrderDef
